@@ -596,3 +596,7 @@ M('seed5-C06-fast-forward-only-after-first-id', ['C06'], Z, "                sel
 M('seed5-C02-empty-dst-falls-back-to-src', ['C02'], F, "                topics = [tuple([t.strip() or default_topic for t in s.strip().split('>')] * 2)[:2] for s in topics]", "                topics = [tuple([t.strip() or s.strip().split('>')[0].strip() or default_topic for t in s.strip().split('>')] * 2)[:2] for s in topics]", ['C02.R10'])
 M('loop-sends-input-not-result', ['C03'], F, "        frames = self.process_frames(frames)\n\n        while not self.mq.send(frames,", "        result = self.process_frames(frames)\n\n        while not self.mq.send(frames,", ['C03.R14'])
 M('loop-timeout-skips-process', ['C03'], F, "            if (sources_timeout := sources_timeout - POLL_TIMEOUT_MS) <= 0:\n                frames = {}\n\n                break", "            if (sources_timeout := sources_timeout - POLL_TIMEOUT_MS) <= 0:\n                return", ['C03.R14', 'C08.R4'])
+M('send-wait-ignores-stop', ['C08'], F, "        while not self.mq.send(frames, min(POLL_TIMEOUT_MS, outputs_timeout)):\n            if self.stop_evt.is_set():\n                self.exit()\n", "        while not self.mq.send(frames, min(POLL_TIMEOUT_MS, outputs_timeout)):\n            if self.stop_evt.is_set():\n                pass\n", ['C08.R4'])
+M('main-loop-condition-inverted', ['C08'], F, "                            while not stop_evt.is_set():", "                            while stop_evt.is_set():", ['C08.R4'])
+M('seed5-C04-poll-time-before-wait', ['C04'], Z, r"(            ret = False\n)(\n            while True:  # this loop only exists.*?)                t         = time_ns\(\) // 1_000_000  # ns -> ms\n", r"\1            t   = time_ns() // 1_000_000\n\2", ['C04.R5'], regex=True)
+M('recv-D16-shape', ['C01'], Z, "        if min_recv_id > self.prev_id + 1:  # the caller moved on past", "        if False and min_recv_id > self.prev_id + 1:  # the caller moved on past", ['C01.R9'])
